@@ -30,7 +30,8 @@ RULE = (
     "finite, and equals BITWISE a fresh instance of the same configuration on the same matrix (same seed for "
     "the randomised ones), so history -- incl. earlier rejections and faults -- is unobservable; a corrupted "
     "input is rejected with ValueError by the weighted aggregators, GradDrop and TrimmedMean; under a kernel "
-    "failure the call may raise or return finite data of the right shape/dtype, and the next clean call on the "
+    "failure the call may let the fault propagate (itself or chained), raise a ValueError, or return finite "
+    "data of the right shape/dtype -- but not swallow the fault and then die of another exception -- and the next clean call on the "
     "same instance must still equal the fresh one. Non-trivial: history with >=1 fault step followed by a clean "
     "call on the same instance; distinct = digest of (pool configuration, matrices, step list)."
 )
@@ -288,12 +289,17 @@ def execute(scn):
             before = _bytes(J)
             kf = seams.KernelFaults({site: None if st.get("which") is None else [int(st["which"])]})
             torch.manual_seed(int(st["seed"]))
+            crashed = None
             with kf.armed():
                 try:
                     out = A(J)
                     exc = None
                 except Exception as e:  # noqa: BLE001
                     out, exc = None, type(e).__name__
+                    # a fault may propagate (itself or chained) or be turned into a deliberate ValueError; but
+                    # if the code swallowed it and then died of something else, its fallback path is broken
+                    if kf.fired[site] and not kf.in_chain(e) and not isinstance(e, ValueError):
+                        crashed = f"{type(e).__name__}: {str(e)[:160]}"
             stats["api_calls"] = stats.get("api_calls", 0) + 1
             if kf.fired[site]:
                 stats[f"fault.F5_{site}"] = stats.get(f"fault.F5_{site}", 0) + 1
@@ -303,6 +309,8 @@ def execute(scn):
                 else:
                     stats[f"reach.fault_propagated_as_exception_{site}"] = stats.get(f"reach.fault_propagated_as_exception_{site}", 0) + 1
             events.append([si, "kfault", kind, site, kf.fired[site], exc, None if out is None else digest(_bytes(out))])
+            if crashed:
+                viols.append({"clause": "fault_path_crashed", "step": si, "details": {"agg": a_spec, "site": site, "exception_after_the_fault_was_swallowed": crashed, "shape": list(J.shape)}, "key": {"agg": kind, "site": site}})
             if _bytes(J) != before:
                 viols.append({"clause": "input_modified", "step": si, "details": {"agg": kind, "op": "kfault", "site": site}, "key": {"agg": kind}})
             if exc is None:
